@@ -49,10 +49,18 @@ def rnd_pose(rng):
     q = [rng.gauss(0, 1) for _ in range(4)]
     n = math.sqrt(sum(v * v for v in q))
     q = [v / n for v in q]
-    if rng.random() < 0.15:
+    x = rng.random()
+    if x < 0.15:
         s = rng.choice([2.0, 0.5, -1.0])
         q = [v * s for v in q]
-    t = [rng.uniform(-10, 10) for _ in range(3)]
+    elif x < 0.35:
+        # a mount that is ALMOST aligned (a calibrated stereo pair, a head nearly aligned with its vehicle): a rotation between a
+        # millionth of a degree and half a degree, or exactly the identity; its translation still has to be rotated
+        eps = rng.choice([0.0, 10.0 ** rng.uniform(-8, -2.3)])
+        q = [1.0, q[1] * eps, q[2] * eps, q[3] * eps]
+        n = math.sqrt(sum(v * v for v in q))
+        q = [v / n for v in q]
+    t = [rng.uniform(-10, 10) for _ in range(3)] if rng.random() < 0.8 else [rng.uniform(-100, 100) for _ in range(3)]
     return [H(v) for v in q + t]
 
 
